@@ -164,6 +164,18 @@ def items(tier):
                 sp = dict(sp0, workplaces=[dict(wp, wire_inputs=wiring) for wp in sp0["workplaces"]])
                 for dflag, rev in itertools.product((False, True), repeat=2):
                     out.append((sp, {"rule": "TSLACK", "due": dflag, "rev": rev, "absence": [], "max_time": F.seq_bound(sp) + 12}))
+    # a two-stage line whose workplaces share their input / output list OBJECTS
+    names = ["T0", "T1", "T2", "T3"]
+    full = {nm: 1.0 for nm in names}
+    line = {"tasks": [{"name": "T0", "work": 1.0, "nf": True}, {"name": "T1", "work": 2.0, "nf": True}, {"name": "T2", "work": 1.0, "nf": True}, {"name": "T3", "work": 1.0, "nf": True}],
+            "links": [[0, 1, "FS"], [2, 3, "FS"]], "components": [{"name": "C0", "tasks": [0, 1]}, {"name": "C1", "tasks": [2, 3]}],
+            "workplaces": [{"name": "WP1", "cap": 1.0, "targets": [0, 2], "facilities": [{"name": "F1", "skills": dict(full)}]}, {"name": "WP2", "cap": 1.0, "targets": [0, 2], "facilities": [{"name": "F2", "skills": dict(full)}]},
+                           {"name": "WP3", "cap": 1.0, "targets": [1, 3], "inputs": [0, 1], "facilities": [{"name": "F3", "skills": dict(full)}]}, {"name": "WP4", "cap": 1.0, "targets": [1, 3], "inputs": [0, 1], "facilities": [{"name": "F4", "skills": dict(full)}]}],
+            "teams": [{"name": "TM0", "targets": [0, 1, 2, 3], "workers": [{"name": "W%d" % i, "skills": dict(full), "fskills": {"F1": 1.0, "F2": 1.0, "F3": 1.0, "F4": 1.0}} for i in range(2)]}]}
+    for alias in (True, False):
+        sp = dict(line, alias_conveyor_lists=alias)
+        for dflag, rev in itertools.product((False, True), repeat=2):
+            out.append((sp, {"rule": "TSLACK", "due": dflag, "rev": rev, "absence": [], "max_time": 20}))
     # four tails, two of them sharing a due time below the maximum
     fl4 = {"tasks": [{"name": F.tname(i), "work": float(w), "due": d} for i, (w, d) in enumerate(((1, 2), (2, 2), (1, 3), (2, 6)))], "links": []}
     for lay in ("POOL2",):
